@@ -302,6 +302,30 @@ def run(ck: Check) -> None:
             break
     ck.count("interference-points", injected)
 
+    # arguments outside the JSON universe (instances of subclasses of dict / list / str / int, tuples, proxies): the outcome of every call, at every point of
+    # a history that mixes them (wrapping first, verifying later, and the other way round), equals its outcome as the first call of a fresh process
+    from .. import exotic
+    labs = exotic.labels()
+    env1 = dict(os.environ, PYTHONPATH=os.path.dirname(os.path.dirname(os.path.dirname(os.path.abspath(__file__)))))
+    def fresh(lab):
+        p_ = subprocess.run([sys.executable, "-m", "cctv.subproc", "exotic", lab], env=env1, cwd="/", stdout=subprocess.PIPE, stderr=subprocess.PIPE, text=True)
+        return p_.stdout.strip().split("\t")[-1] if p_.returncode == 0 and p_.stdout.strip() else "X " + p_.stderr[-200:]
+    from concurrent.futures import ThreadPoolExecutor
+    with ThreadPoolExecutor(max_workers=16) as ex:
+        fresh_out = dict(zip(labs, ex.map(fresh, labs)))
+    hist = list(labs)
+    rng.shuffle(hist)
+    hist = [l for l in hist if l.startswith(("verify", "is_signable", "checkformat"))] + [l for l in hist if l.startswith(("wrap", "sign", "serialize"))] + hist
+    for pos, lab in enumerate(hist):
+        got = exotic.run(lab)
+        ck.evaluations += 1
+        ck.oracle_checks += 1
+        ck.count("exotic:" + lab.split(":")[0] + ":" + got[:12].split(" ")[0])
+        if got != fresh_out[lab]:
+            ck.violation("the outcome of a call depends on the calls made before it in the same process (arguments that are instances of dict / list / str / int subclasses)",
+                         {"call": lab, "position_in_history": pos, "in_history": got, "fresh_process": fresh_out[lab], "history_before": hist[max(0, pos - 8):pos]}, f"history-dependent-exotic:{lab.split(':')[0]}")
+            break
+
     # the same seeded batch of calls in fresh processes under other configurations: identical verdict digests
     env0 = dict(os.environ, PYTHONPATH=os.path.dirname(os.path.dirname(os.path.dirname(os.path.abspath(__file__)))))
     digests = {}
